@@ -337,7 +337,7 @@ func (P *Program) verify(fn *ssa.Function, timeoutMs int, par int, keepDir strin
 				}
 				all := vc2.obligs
 				vc2.obligs = again
-				vc2.discharge(timeoutMs, par, "")
+				vc2.discharge(3*timeoutMs, par, "")
 				vc2.obligs = all
 				for _, o := range again {
 					if o.Status == "unsat" {
